@@ -456,7 +456,7 @@ def drive_real(exe, seed, api, variant, style, max_calls):
                     se.send("memlimit_set 300000000")
             else:
                 ended += 1
-        elif ret in (1, 11) and d["seq"] in ("5", "6"):
+        elif ret in (1, 11) and d["seq"] in ("end", "error"):
             ended += 1
         if rng.random() < 0.02:
             se.send(rng.choice(("memusage", "memlimit_get")))
@@ -632,13 +632,18 @@ def offs(s):
 
 
 def monitor(ops, impl):
-    """Returns a list of (op index, clause, message). Empty list = every property statement holds on this trace."""
+    """Returns a list of (op index, clause, message, kind). Empty list = every property statement holds on this trace.
+    kind "obs": a statement of the property fails on what the APPLICATION can observe (return values, the six public
+    members, whether/how the coder was called, memory outside the buffers) -> a violation with this history as input.
+    kind "tie": only a PRIVATE member of lzma_internal (sequence, allow_buf_error, saved avail_in, supported_actions[])
+    differs from what the model keeps there. The property does not promise those; such a difference only means the tie
+    between model and code no longer checks -> ctx.obligation_broken, never a violation with an input."""
     bad = []
     st = None          # spec state of the handle
     for n, (op, res) in enumerate(zip(ops, impl)):
         t = op.split()
-        def fail(clause, msg):
-            bad.append((n, clause, msg + " | op: " + op + " | impl: " + str(res)))
+        def fail(clause, msg, kind="obs"):
+            bad.append((n, clause, msg + " | op: " + op + " | impl: " + str(res), "obs" if clause == "machinery" else kind))
         if res is None or res.startswith("bad-op"):
             fail("machinery", "harness did not answer / rejected the op")
             break
@@ -656,11 +661,17 @@ def monitor(ops, impl):
                 mask = DOC_MASK[t[2]]
             st.update(kind=kind, init=(kind != "uninit"), code=(kind in ("stub", "real")), mask=mask, mode="run", locked=None, saved=None,
                       idle=False, tin=0, tout=0, flags=int(t[3]) if kind == "stub" else 0, memlimit=5000, real=(kind == "real"))
-            exp = "%s 0 seq=- abe=- tin=0 tout=0 sup=-" % t[0] if kind == "uninit" else "%s 0 seq=0 abe=0 tin=0 tout=0 sup=%d" % (t[0], mask)
-            if comparable(res) != exp:
-                only_sup = comparable(res).rsplit(" ", 1)[0] == exp.rsplit(" ", 1)[0]
-                fail("supported_per_coder" if (kind == "real" and only_sup) else "strm_init_resets",
-                     "initialisation result differs from the documented one: expected '%s'" % exp)
+            # public part: return value and the totals; private part: sequence / allow_buf_error / supported_actions
+            got = comparable(res).split()
+            exp_pub = [t[0], "0", "tin=0", "tout=0"]
+            exp_prv = ["seq=-", "abe=-", "sup=-"] if kind == "uninit" else ["seq=run", "abe=0", "sup=%d" % mask]
+            if len(got) != 7 or [got[0], got[1], got[4], got[5]] != exp_pub:
+                fail("strm_init_resets", "initialisation must return LZMA_OK and reset total_in/total_out")
+            elif [got[2], got[3], got[6]] != exp_prv:
+                if (got[2] == "seq=-") != (kind == "uninit"):
+                    fail("strm_init_resets", "internal is %s after initialisation" % ("missing" if got[2] == "seq=-" else "present"))
+                else:
+                    fail("strm_init_resets", "private state after initialisation is %s, the model has %s" % ([got[2], got[3], got[6]], exp_prv), "tie")
             continue
         if st is None:
             fail("machinery", "op before new")
@@ -739,19 +750,20 @@ def monitor(ops, impl):
             if st["init"] and (d["seq"] == "-"):
                 fail(clause, "internal vanished")
 
-        seqno = {"run": 0, "end": 5, "error": 6}
+        seqname = {1: "sync", 2: "fullflush", 3: "finish", 4: "barrier"}
         def check_internal(clause):
+            """Private members vs the model's idea of them: tie only (see the docstring)."""
             if d["seq"] == "-":
                 if st["init"]:
                     fail(clause, "internal vanished")
                 return
-            exp_seq = st["locked"] if st["mode"] == "locked" else seqno[st["mode"]]
-            if int(d["seq"]) != exp_seq:
-                fail(clause, "sequence is %s, expected %d" % (d["seq"], exp_seq))
+            exp_seq = seqname[st["locked"]] if st["mode"] == "locked" else st["mode"]
+            if d["seq"] != exp_seq:
+                fail(clause, "sequence is %s, the model has %s" % (d["seq"], exp_seq), "tie")
             if st["mode"] == "locked" and d["sav"] != str(st["saved"]):
-                fail(clause, "saved avail_in is %s, expected %d" % (d["sav"], st["saved"]))
+                fail(clause, "saved avail_in is %s, the model has %d" % (d["sav"], st["saved"]), "tie")
             if st["mode"] != "error" and int(d["abe"]) != int(st["idle"]):
-                fail(clause, "allow_buf_error is %s, expected %d" % (d["abe"], int(st["idle"])))
+                fail(clause, "allow_buf_error is %s, the model has %d" % (d["abe"], int(st["idle"])), "tie")
 
         st["nin"], st["ain"], st["nout"], st["aout"] = post[0], post[1], post[3], post[4]
         st["tin"], st["tout"] = post[2], post[5]
@@ -850,7 +862,18 @@ def gen_stage(ctx):
     return True, ""
 
 
+def ignore_sigpipe():
+    """`./check` resets SIGPIPE to its default disposition (needed by C17/C18). This check writes op lines to harness
+    processes that may die early (sanitizer abort on a broken tree); that must surface as EPIPE, not kill the check."""
+    import signal
+    try:
+        signal.signal(signal.SIGPIPE, signal.SIG_IGN)
+    except (OSError, ValueError):
+        pass
+
+
 def build(ctx):
+    ignore_sigpipe()
     okb, log, _ = vlib.c_build("asan", targets=["liblzma"])
     if not okb:
         ctx.obligation_broken("stage B: /repo does not build", log)
@@ -927,7 +950,7 @@ def run(ctx):
     ctx.log("harness %.1fs, model %.1fs, compare+monitor %.1fs" % (tot["t_impl"], tot["t_model"], tot["t_cmp"]))
     ctx.cov["correspondence"] = {"histories": tot["hist"], "calls": tot["calls"], "op_lines": tot["lines"],
                                  "model_ran": bool(model_ok), "histories_with_mismatch": tot["mism"],
-                                 "histories_violating_monitor": tot["mon_bad"],
+                                 "histories_violating_monitor": tot["mon_bad"], "histories_with_private_state_difference_only": tot.get("tie_bad", 0),
                                  "compared": "return value, next_in/next_out offsets, avail_in/out, total_in/out, sequence, allow_buf_error, saved avail_in, arguments handed to the inner coder; results of lzma_get_progress/memusage/memlimit_get/set on the stub"}
     ctx.cov["search"] = {"histories_checked_by_property_monitor": tot["checked"], "violating": tot["mon_bad"]}
     return "proof"
@@ -1063,24 +1086,32 @@ def process(ctx, exe, mexe, hists, impl, tot):
         mach = [b for b in bad if b[1] == "machinery"]
         if mach:
             raise RuntimeError("harness/generator inconsistency: %r" % (mach[0],))
-        if bad:
+        obs = [b for b in bad if b[3] == "obs"]
+        tie = [b for b in bad if b[3] == "tie"]
+        if obs:
             tot["mon_bad"] += 1
             if tot["mon_bad"] <= 3:
                 def still(o, res):
-                    b = [x for x in monitor(o, res) if x[1] != "machinery"]
+                    b = [x for x in monitor(o, res) if x[1] != "machinery" and x[3] == "obs"]
                     return b[0][0] if b else None
                 small = shrink(exe, ops, still)
                 rc1, o1, e1 = vlib.run_lines([exe], small)
                 o1 = o1 + [None] * (len(small) - len(o1))
-                ctx.violation("protocol-" + bad[0][1], {"kind": "the implementation trace violates a C11 statement (property monitor, independent of the Lean model)",
-                                                        "clause": bad[0][1], "findings": [b[2] for b in monitor(small, o1)][:5] or [b[2] for b in bad][:5],
+                ctx.violation("protocol-" + obs[0][1], {"kind": "the implementation trace violates a C11 statement on what the application observes (property monitor, independent of the Lean model)",
+                                                        "clause": obs[0][1], "findings": [b[2] for b in monitor(small, o1) if b[3] == "obs"][:5] or [b[2] for b in obs][:5],
                                                         "family": fam, "ops": small, "impl": o1, "original_ops": ops if len(ops) < 400 else ops[:400]}, True)
+        elif tie:
+            # only private members of lzma_internal differ from the model's: the tie no longer checks, the property may well hold
+            tot["tie_bad"] = tot.get("tie_bad", 0) + 1
+            if tot["tie_bad"] <= 2:
+                ctx.obligation_broken("tie C11: private state of lzma_internal differs from the model's although everything the application observes satisfies the property monitor",
+                                      json.dumps({"family": fam, "clause": tie[0][1], "finding": tie[0][2][:600], "ops": ops[:tie[0][0] + 1][-10:]}))
         mo = m_out.get(i)
         if mexe is not None and mo is not None:
             diff = [k for k in range(len(ops)) if comparable(out[k]) != mo[k]]
             if diff:
                 tot["mism"] += 1
-                if not bad and tot["mism"] <= 3:
+                if not obs and tot["mism"] <= 3:
                     k = diff[0]
                     ctx.obligation_broken("correspondence C11: model and implementation disagree although the implementation trace satisfies the property monitor (model defect or un-monitored behaviour)",
                                           json.dumps({"family": fam, "ops": ops[:k + 1][-12:], "impl": out[k], "model": mo[k]}))
@@ -1106,15 +1137,15 @@ def replay(ctx, path):
         return 1
     bad = [b for b in monitor(ops, out)]
     for b in bad:
-        print("monitor: op %d clause %s: %s" % b)
+        print("monitor: op %d clause %s: %s [%s]" % b)
     mexe = vlib.model_exe("xzm_c11")
     if os.path.exists(mexe):
         rc, mo, _ = vlib.run_lines([mexe], model_lines(ops, out))
         for k in range(min(len(mo), len(out))):
             if comparable(out[k]) != mo[k]:
                 print("model differs at op %d: model '%s'" % (k, mo[k]))
-    if bad:
+    if [b for b in bad if b[3] == "obs"]:
         print("VIOLATION property=C11 replay=%s" % path)
         return 1
-    print("replay passes")
+    print("replay passes" + (" (private-state differences from the model only: tie, not a violation)" if bad else ""))
     return 0
